@@ -9,13 +9,25 @@ package records
 // virtual time and time.Sleep is the clock-advance operation.  The datastore is
 // a recording wrapper around a MapDatastore; a restart is Close followed by a
 // new manager on the same datastore.
+//
+// Every fifth case is of a second kind (c07Conc*, below): client goroutines,
+// Close and the real gcLoop run concurrently on a GATED datastore under a
+// generated schedule, to check the Close fence for calls that are in flight
+// when Close runs (model: coq/Model/ProvidersClose.v, glue: coq/Corr/Run_C07Close.v).
 
 import (
 	"context"
+	"encoding/json"
 	"errors"
 	"fmt"
+	"os"
+	"path/filepath"
+	"regexp"
+	"runtime"
 	"sort"
+	"strconv"
 	"strings"
+	"sync"
 	"sync/atomic"
 	"testing"
 	"testing/synctest"
@@ -524,7 +536,7 @@ func c07Emit(cs *vfCases, c *c07Case, obs []c07Obs, sig map[string]bool, failure
 	if len(sigs) > 0 {
 		s = fmt.Sprintf("%s|n=%d|cap=%d|k=%d", strings.Join(sigs, ","), len(c.Ops)/10, c.Cap, len(c.keys)/4)
 	}
-	term := fmt.Sprintf("{| c_cap := %d%%nat; c_validity := %d; c_interval := %d; c_garbage := %s;\n   c_ops := %s;\n   c_impl := %s |}",
+	term := fmt.Sprintf("CSeq {| c_cap := %d%%nat; c_validity := %d; c_interval := %d; c_garbage := %s;\n   c_ops := %s;\n   c_impl := %s |}",
 		c.Cap, c.Validity, c.Interval, vfList(gb), vfList(opc), vfList(obc))
 	idx := cs.Add(term, c, s)
 	if failure != "" {
@@ -538,13 +550,25 @@ func TestVerifC07(t *testing.T) {
 	only := vfOnly()
 	cs := vfNewCases("Run_C07", 100)
 	root := vfNewRand(seed)
+	vfStartWatchdog(90 * time.Second)
+	defer vfStopWatchdog()
 	for i := 0; i < n; i++ {
 		r := root.Fork()
 		if only >= 0 && i != only {
 			continue
 		}
+		if i%5 == 4 {
+			// concurrent case: Close fence on a gated datastore
+			c := c07ConcGen(r, i, i/5)
+			c.Seed = seed
+			vfBeat(c)
+			failure := c07ConcRun(t, c, r)
+			c07ConcEmit(cs, c, failure)
+			continue
+		}
 		c := c07Gen(r, i)
 		c.Seed = seed
+		vfBeat(c)
 		if vfThorough() && i%8 == 7 {
 			// every restart point: the same history with a restart inserted after
 			// the j-th acknowledged write, for one j derived from the case index
@@ -566,5 +590,785 @@ func TestVerifC07(t *testing.T) {
 	}
 	if err := cs.Flush(); err != nil {
 		t.Fatal(err)
+	}
+}
+
+// ---------------------------------------------------------------------------------
+// Concurrent cases: the Close fence on a gated datastore
+// ---------------------------------------------------------------------------------
+//
+// The datastore handed to the manager parks every call (Put / Query / Delete /
+// Get / Has / GetSize / Sync / Batch / Commit) on a per-call channel until the
+// driver releases it.  The driver performs one action at a time
+//
+//	start i   go AddProvider / GetProviders of client i
+//	close     go pm.Close()
+//	rel a     release the parked call of client a (a = -1: of the sweep goroutine)
+//	tick      sleep (virtual time) just past the next tick of the GC ticker
+//
+// and after each action waits until nothing in the bubble can move, then records
+// a snapshot (who is parked in which call, who returned what, did Close return).
+// "Nothing can move" cannot be synctest.Wait(): a goroutine blocked in
+// sync.Mutex.Lock is not durably blocked for synctest, and clients queued on
+// pm.mu behind a parked call are the interesting states.  c07Quiesce therefore
+// polls the goroutine states of the bubble (runtime.Stack): quiet = every other
+// goroutine of the bubble is durably blocked or in sync.Mutex.Lock (a woken
+// waiter is "runnable" from the instant of the Unlock, so there is no window in
+// which a bubble that is about to move looks quiet; virtual time only moves when
+// the driver sleeps).  tick is only offered when no goroutine waits for a mutex
+// (time would never advance otherwise).
+
+type c07CClient struct {
+	Op string `json:"op"` // add get
+	K  int    `json:"k"`
+	P  int    `json:"p,omitempty"`
+}
+
+type c07CAct struct {
+	A string `json:"a"` // start close rel tick
+	I int    `json:"i"` // client index; -1 = the sweep goroutine (rel)
+}
+
+type c07CSnap struct {
+	C  []string `json:"c"`  // per client: "-" "w" "p:<call>" "ok" "closed" "other"
+	GC string   `json:"gc"` // "" or the datastore call the sweep goroutine is parked in
+	X  string   `json:"x"`  // Close: "-" "w" "ret"
+}
+
+type c07CMacro struct {
+	Act  c07CAct  `json:"act"`
+	Snap c07CSnap `json:"snap"`
+}
+
+type c07Conc struct {
+	Case     int          `json:"case"`
+	Seed     uint64       `json:"seed"`
+	Kind     string       `json:"kind"`
+	Scenario string       `json:"scenario"`
+	Cap      int          `json:"cap"`
+	Validity int64        `json:"validity"`
+	Interval int64        `json:"interval"`
+	Setup    []c07Op      `json:"setup"` // run one after the other with the gate open
+	Clients  []c07CClient `json:"clients"`
+	Script   []c07CAct    `json:"script"` // actions tried first, in this order (skipped when not possible)
+	Macros   []c07CMacro  `json:"macros"` // what was done and seen
+	Progs    [][]string   `json:"progs"`  // datastore calls seen per client
+	Sweeps   [][]string   `json:"sweeps"` // datastore calls seen per sweep
+}
+
+const (
+	c07Ms = int64(time.Millisecond)
+	c07S  = int64(time.Second)
+	c07H  = int64(time.Hour)
+)
+
+func c07Acts(spec string) []c07CAct { // "s0 x r0 r- t"
+	var out []c07CAct
+	for _, f := range strings.Fields(spec) {
+		switch f[0] {
+		case 's':
+			i, _ := strconv.Atoi(f[1:])
+			out = append(out, c07CAct{A: "start", I: i})
+		case 'x':
+			out = append(out, c07CAct{A: "close"})
+		case 't':
+			out = append(out, c07CAct{A: "tick"})
+		case 'r':
+			if f[1:] == "-" {
+				out = append(out, c07CAct{A: "rel", I: -1})
+			} else {
+				i, _ := strconv.Atoi(f[1:])
+				out = append(out, c07CAct{A: "rel", I: i})
+			}
+		}
+	}
+	return out
+}
+
+func c07Add(k, p int) c07Op     { return c07Op{Kind: "add", K: k, P: p} }
+func c07Get(k int) c07Op        { return c07Op{Kind: "get", K: k} }
+func c07Sleep(d int64) c07Op    { return c07Op{Kind: "sleep", D: d} }
+func c07CA(k, p int) c07CClient { return c07CClient{Op: "add", K: k, P: p} }
+func c07CG(k int) c07CClient    { return c07CClient{Op: "get", K: k} }
+
+// the deterministic part of the plan: always run (quick and thorough)
+var c07Scenarios = []c07Conc{
+	{Scenario: "put-parked-at-close", Cap: 4, Validity: c07H, Interval: 0,
+		Clients: []c07CClient{c07CA(1, 2)}, Script: c07Acts("s0 x r0")},
+	{Scenario: "query-parked-at-close", Cap: 4, Validity: c07H, Interval: 0,
+		Setup: []c07Op{c07Add(1, 2), c07Add(1, 3)}, Clients: []c07CClient{c07CG(1)}, Script: c07Acts("s0 x r0")},
+	{Scenario: "queued-behind-another-at-close", Cap: 4, Validity: c07H, Interval: 0,
+		Setup: []c07Op{c07Add(2, 2)}, Clients: []c07CClient{c07CA(1, 2), c07CG(2)}, Script: c07Acts("s0 s1 x r0")},
+	{Scenario: "close-during-sweep", Cap: 4, Validity: 100 * c07Ms, Interval: c07S,
+		Setup: []c07Op{c07Add(1, 2), c07Add(2, 3)}, Clients: []c07CClient{c07CA(1, 3)}, Script: c07Acts("t x s0 r-")},
+	{Scenario: "close-while-sweep-in-delete", Cap: 4, Validity: 100 * c07Ms, Interval: c07S,
+		Setup: []c07Op{c07Add(1, 2), c07Add(2, 3), c07Add(3, 2)}, Clients: []c07CClient{c07CG(1)}, Script: c07Acts("t r- x r-")},
+	{Scenario: "tick-buffered-when-cancelled", Cap: 4, Validity: 100 * c07Ms, Interval: c07S,
+		Setup: []c07Op{c07Add(1, 2)}, Clients: []c07CClient{c07CA(2, 2)}, Script: c07Acts("t t x r-")},
+	{Scenario: "calls-after-close", Cap: 4, Validity: c07H, Interval: c07S,
+		Setup: []c07Op{c07Add(1, 2)}, Clients: []c07CClient{c07CA(1, 3), c07CG(1)}, Script: c07Acts("x s0 s1")},
+	{Scenario: "close-while-load-deletes-expired", Cap: 4, Validity: 100 * c07Ms, Interval: 0,
+		Setup:   []c07Op{c07Add(1, 2), c07Add(1, 3), c07Sleep(300 * c07Ms)},
+		Clients: []c07CClient{c07CG(1), c07CA(1, 1)}, Script: c07Acts("s0 r0 s1 x r0 r0")},
+	{Scenario: "three-queued-at-close", Cap: 4, Validity: c07H, Interval: 0,
+		Setup: []c07Op{c07Add(1, 3)}, Clients: []c07CClient{c07CA(1, 2), c07CA(2, 2), c07CG(1)}, Script: c07Acts("s0 s1 s2 x r0")},
+	{Scenario: "cached-get-queued-at-close", Cap: 4, Validity: c07H, Interval: 0,
+		Setup: []c07Op{c07Add(1, 2), c07Get(1)}, Clients: []c07CClient{c07CA(2, 2), c07CG(1)}, Script: c07Acts("s0 s1 x r0")},
+	{Scenario: "sweep-and-client-parked-at-close", Cap: 1, Validity: 800 * c07Ms, Interval: c07S,
+		Setup:   []c07Op{c07Add(1, 2), c07Sleep(300 * c07Ms), c07Add(2, 2)},
+		Clients: []c07CClient{c07CG(1), c07CA(3, 2)}, Script: c07Acts("t s0 s1 x r0 r-")},
+	{Scenario: "close-first-then-everything", Cap: 2, Validity: 100 * c07Ms, Interval: c07S,
+		Setup: []c07Op{c07Add(1, 2)}, Clients: []c07CClient{c07CG(1)}, Script: c07Acts("t x r- s0")},
+}
+
+const c07NK, c07NP = 4, 3
+
+func c07ConcGen(r *vfRand, idx, j int) *c07Conc {
+	if j < len(c07Scenarios) {
+		c := c07Scenarios[j] // a copy
+		c.Case, c.Kind = idx, "conc"
+		return &c
+	}
+	c := &c07Conc{Case: idx, Kind: "conc", Scenario: "random"}
+	c.Cap = []int{1, 2, 256}[r.Intn(3)]
+	c.Validity = []int64{100 * c07Ms, 800 * c07Ms, c07H}[r.Intn(3)]
+	if r.Chance(60) {
+		c.Interval = c07S
+	}
+	// setup: a few additions, sometimes a pause that lets them expire, queries that fill the cache
+	slept := int64(0)
+	for i, n := 0, r.Intn(7); i < n; i++ {
+		switch x := r.Intn(10); {
+		case x < 6:
+			c.Setup = append(c.Setup, c07Add(1+r.Intn(c07NK), 1+r.Intn(c07NP)))
+		case x < 8:
+			c.Setup = append(c.Setup, c07Get(1+r.Intn(c07NK)))
+		default:
+			d := int64(50+r.Intn(250)) * c07Ms
+			if slept+d < 700*c07Ms { // never reaches the first tick: no sweep during the setup
+				c.Setup = append(c.Setup, c07Sleep(d))
+				slept += d
+			}
+		}
+	}
+	for i, n := 0, 1+r.Intn(5); i < n; i++ {
+		if r.Chance(50) {
+			c.Clients = append(c.Clients, c07CA(1+r.Intn(c07NK), 1+r.Intn(c07NP)))
+		} else {
+			c.Clients = append(c.Clients, c07CG(1+r.Intn(c07NK)))
+		}
+	}
+	return c
+}
+
+// ---- the gate ------------------------------------------------------------------------
+
+type c07Call struct {
+	actor int
+	op    string
+	ch    chan struct{}
+}
+
+type c07Gate struct {
+	mu      sync.Mutex
+	open    bool
+	goids   map[int64]int    // goroutine id -> client index
+	parked  map[int]*c07Call // actor (-1: not a client goroutine = the sweep) -> its parked call
+	progs   [][]string
+	sweeps  [][]string
+	anomaly string
+}
+
+func c07Goid() int64 {
+	var buf [64]byte
+	s := string(buf[:runtime.Stack(buf[:], false)]) // "goroutine 123 [running..."
+	s = strings.TrimPrefix(s, "goroutine ")
+	if i := strings.IndexByte(s, ' '); i > 0 {
+		s = s[:i]
+	}
+	id, _ := strconv.ParseInt(s, 10, 64)
+	return id
+}
+
+func (g *c07Gate) enter(op string) {
+	g.mu.Lock()
+	if g.open {
+		g.mu.Unlock()
+		return
+	}
+	actor := -1
+	if i, ok := g.goids[c07Goid()]; ok {
+		actor = i
+	}
+	if g.parked[actor] != nil {
+		// one goroutine makes one call at a time; every goroutine that is not a client counts as
+		// "the sweep": two of them inside the datastore at once is not the manager we model
+		g.anomaly = fmt.Sprintf("a second datastore call (%s) by actor %d while its call %s is still parked", op, actor, g.parked[actor].op)
+		g.mu.Unlock()
+		return
+	}
+	c := &c07Call{actor: actor, op: op, ch: make(chan struct{})}
+	g.parked[actor] = c
+	if actor >= 0 {
+		g.progs[actor] = append(g.progs[actor], op)
+	} else {
+		if op == "query" || len(g.sweeps) == 0 {
+			g.sweeps = append(g.sweeps, nil)
+		}
+		g.sweeps[len(g.sweeps)-1] = append(g.sweeps[len(g.sweeps)-1], op)
+	}
+	g.mu.Unlock()
+	<-c.ch // deliberately ignores ctx: the driver decides the order of events
+}
+
+func (g *c07Gate) release(actor int) bool {
+	g.mu.Lock()
+	c := g.parked[actor]
+	delete(g.parked, actor)
+	g.mu.Unlock()
+	if c == nil {
+		return false
+	}
+	close(c.ch)
+	return true
+}
+
+func (g *c07Gate) openAll() {
+	g.mu.Lock()
+	g.open = true
+	var cs []*c07Call
+	for a, c := range g.parked {
+		cs = append(cs, c)
+		delete(g.parked, a)
+	}
+	g.mu.Unlock()
+	for _, c := range cs {
+		close(c.ch)
+	}
+}
+
+type c07GateDS struct {
+	inner ds.Batching
+	g     *c07Gate
+}
+
+func (d *c07GateDS) Get(ctx context.Context, k ds.Key) ([]byte, error) {
+	d.g.enter("other")
+	return d.inner.Get(ctx, k)
+}
+func (d *c07GateDS) Has(ctx context.Context, k ds.Key) (bool, error) {
+	d.g.enter("other")
+	return d.inner.Has(ctx, k)
+}
+func (d *c07GateDS) GetSize(ctx context.Context, k ds.Key) (int, error) {
+	d.g.enter("other")
+	return d.inner.GetSize(ctx, k)
+}
+func (d *c07GateDS) Query(ctx context.Context, q dsq.Query) (dsq.Results, error) {
+	d.g.enter("query")
+	return d.inner.Query(ctx, q)
+}
+func (d *c07GateDS) Put(ctx context.Context, k ds.Key, v []byte) error {
+	d.g.enter("put")
+	return d.inner.Put(ctx, k, v)
+}
+func (d *c07GateDS) Delete(ctx context.Context, k ds.Key) error {
+	d.g.enter("delete")
+	return d.inner.Delete(ctx, k)
+}
+func (d *c07GateDS) Sync(ctx context.Context, k ds.Key) error {
+	d.g.enter("other")
+	return d.inner.Sync(ctx, k)
+}
+func (d *c07GateDS) Batch(ctx context.Context) (ds.Batch, error) {
+	d.g.enter("other")
+	b, err := d.inner.Batch(ctx)
+	if err != nil {
+		return nil, err
+	}
+	return &c07GateBatch{Batch: b, g: d.g}, nil
+}
+func (d *c07GateDS) Close() error { return d.inner.Close() }
+
+type c07GateBatch struct {
+	ds.Batch
+	g *c07Gate
+}
+
+func (b *c07GateBatch) Commit(ctx context.Context) error {
+	b.g.enter("other")
+	return b.Batch.Commit(ctx)
+}
+
+// ---- quiescence -------------------------------------------------------------------------
+
+var c07GoHdr = regexp.MustCompile(`(?m)^goroutine (\d+) \[([^\]]*)\]:$`)
+var c07BubbleRe = regexp.MustCompile(`synctest bubble \d+`)
+var c07StackBuf = make([]byte, 4<<20)
+
+// c07Quiesce returns when every other goroutine of the caller's bubble is blocked
+// (durably, or in a mutex Lock); it returns the number of mutex waiters, or -1
+// when the bubble did not become quiet within the poll budget.
+func c07Quiesce() int {
+	me := c07Goid()
+	bubble := ""
+	for iter := 0; iter < 2000000; iter++ {
+		runtime.Gosched()
+		st := string(c07StackBuf[:runtime.Stack(c07StackBuf, true)])
+		hs := c07GoHdr.FindAllStringSubmatch(st, -1)
+		if bubble == "" {
+			for _, h := range hs {
+				if id, _ := strconv.ParseInt(h[1], 10, 64); id == me {
+					bubble = c07BubbleRe.FindString(h[2])
+				}
+			}
+			if bubble == "" {
+				return -1 // not in a bubble: the harness is broken
+			}
+		}
+		busy, waiters := false, 0
+		for _, h := range hs {
+			if c07BubbleRe.FindString(h[2]) != bubble {
+				continue
+			}
+			if id, _ := strconv.ParseInt(h[1], 10, 64); id == me {
+				continue
+			}
+			state := h[2]
+			if i := strings.IndexByte(state, ','); i >= 0 {
+				state = state[:i]
+			}
+			switch {
+			case strings.HasPrefix(state, "runnable"), strings.HasPrefix(state, "running"), strings.HasPrefix(state, "syscall"),
+				strings.HasPrefix(state, "preempted"), strings.HasPrefix(state, "copystack"):
+				busy = true // "runnable (durable)" exists: a preempted goroutine keeps the mark of its last wait
+			case strings.HasSuffix(state, "(durable)"):
+			case strings.HasPrefix(state, "sync.Mutex.Lock"), strings.HasPrefix(state, "sync.RWMutex."):
+				waiters++
+			default:
+				busy = true
+			}
+		}
+		if !busy {
+			if waiters == 0 {
+				synctest.Wait() // exact when nobody waits for a mutex
+			}
+			return waiters
+		}
+	}
+	return -1
+}
+
+func c07Hang(c *c07Conc, what string) {
+	buf := make([]byte, 1<<20)
+	st := string(buf[:runtime.Stack(buf, true)])
+	if len(st) > 40000 {
+		st = st[:40000]
+	}
+	js, _ := json.MarshalIndent(map[string]any{"what": what, "case": c, "stacks": st}, "", " ")
+	_ = os.WriteFile(filepath.Join(vfOutDir(), "hang.json"), js, 0o644)
+	fmt.Fprintf(os.Stderr, "c07: %s\n", what)
+	os.Exit(3)
+}
+
+// ---- one concurrent case -------------------------------------------------------------------
+
+func c07ConcRun(t *testing.T, c *c07Conc, r *vfRand) (failure string) {
+	keys := make([][]byte, c07NK)
+	for i := range keys {
+		keys[i] = []byte(fmt.Sprintf("conc-key-%d", i+1))
+	}
+	peers := make([]peer.ID, c07NP)
+	for i := range peers {
+		peers[i] = peer.ID(fmt.Sprintf("conc-peer-%d", i+1))
+	}
+	synctest.Test(t, func(t *testing.T) {
+		ctx := context.Background()
+		n := len(c.Clients)
+		g := &c07Gate{open: true, goids: map[int64]int{}, parked: map[int]*c07Call{}, progs: make([][]string, n)}
+		gds := &c07GateDS{inner: dssync.MutexWrap(ds.NewMapDatastore()), g: g}
+		pstore, err := pstoremem.NewPeerstore()
+		if err != nil {
+			panic(err)
+		}
+		defer pstore.Close()
+		cache, err := lru.NewLRU(c.Cap, nil)
+		if err != nil {
+			panic(err)
+		}
+		pm, err := NewProviderManager(peers[0], pstore, gds, Cache(cache),
+			ProvideValidity(time.Duration(c.Validity)), CleanupInterval(time.Duration(c.Interval)))
+		if err != nil {
+			panic(err)
+		}
+		created := time.Now()
+		synctest.Wait() // the sweep goroutine has created its ticker at this instant
+		defer func() {
+			g.openAll()
+			pm.Close()
+		}()
+
+		// setup, gate open
+		for _, op := range c.Setup {
+			switch op.Kind {
+			case "add":
+				if err := pm.AddProvider(ctx, keys[op.K-1], peer.AddrInfo{ID: peers[op.P-1]}); err != nil {
+					panic(err)
+				}
+			case "get":
+				if _, err := pm.GetProviders(ctx, keys[op.K-1]); err != nil {
+					panic(err)
+				}
+			case "sleep":
+				time.Sleep(time.Duration(op.D))
+				synctest.Wait()
+			}
+		}
+		g.mu.Lock()
+		g.open = false
+		g.mu.Unlock()
+
+		started := make([]bool, n)
+		result := make([]string, n) // guarded by g.mu
+		panics := []string{}
+		closeStarted := false
+		var closeRet atomic.Bool
+		ticks := 0
+		waiters := 0
+
+		snapshot := func() c07CSnap {
+			g.mu.Lock()
+			defer g.mu.Unlock()
+			s := c07CSnap{C: make([]string, n), X: "-"}
+			for i := 0; i < n; i++ {
+				switch {
+				case !started[i]:
+					s.C[i] = "-"
+				case result[i] != "":
+					s.C[i] = result[i]
+				case g.parked[i] != nil:
+					s.C[i] = "p:" + g.parked[i].op
+				default:
+					s.C[i] = "w"
+				}
+			}
+			if p := g.parked[-1]; p != nil {
+				s.GC = p.op
+			}
+			if closeRet.Load() {
+				s.X = "ret"
+			} else if closeStarted {
+				s.X = "w"
+			}
+			return s
+		}
+		possible := func(a c07CAct) bool {
+			switch a.A {
+			case "start":
+				return a.I >= 0 && a.I < n && !started[a.I] && (a.I == 0 || started[a.I-1])
+			case "close":
+				return !closeStarted
+			case "rel":
+				g.mu.Lock()
+				defer g.mu.Unlock()
+				return g.parked[a.I] != nil
+			case "tick":
+				return c.Interval > 0 && ticks < 3 && waiters == 0 && !closeRet.Load()
+			}
+			return false
+		}
+		perform := func(a c07CAct) {
+			switch a.A {
+			case "start":
+				i := a.I
+				started[i] = true
+				cl := c.Clients[i]
+				go func() {
+					g.mu.Lock()
+					g.goids[c07Goid()] = i
+					g.mu.Unlock()
+					res := "other"
+					defer func() {
+						if e := recover(); e != nil {
+							res = "other"
+							g.mu.Lock()
+							panics = append(panics, fmt.Sprint("client ", i, ": ", e))
+							g.mu.Unlock()
+						}
+						g.mu.Lock()
+						result[i] = res
+						g.mu.Unlock()
+					}()
+					var err error
+					if cl.Op == "add" {
+						err = pm.AddProvider(ctx, keys[cl.K-1], peer.AddrInfo{ID: peers[cl.P-1]})
+					} else {
+						_, err = pm.GetProviders(ctx, keys[cl.K-1])
+					}
+					switch {
+					case err == nil:
+						res = "ok"
+					case errors.Is(err, ErrClosed):
+						res = "closed"
+					}
+				}()
+			case "close":
+				closeStarted = true
+				go func() {
+					defer func() {
+						if e := recover(); e != nil {
+							g.mu.Lock()
+							panics = append(panics, fmt.Sprint("Close: ", e))
+							g.mu.Unlock()
+						}
+					}()
+					_ = pm.Close()
+					closeRet.Store(true)
+				}()
+			case "rel":
+				g.release(a.I)
+			case "tick":
+				ticks++
+				I := time.Duration(c.Interval)
+				el := time.Since(created)
+				time.Sleep(I - el%I + 1) // 1 ns past the tick: the sweep goroutine has run up to the gate before the driver wakes
+			}
+		}
+		done := func() bool {
+			if !closeRet.Load() {
+				return false
+			}
+			g.mu.Lock()
+			defer g.mu.Unlock()
+			if len(g.parked) > 0 {
+				return false
+			}
+			for i := 0; i < n; i++ {
+				if !started[i] || result[i] == "" {
+					return false
+				}
+			}
+			return true
+		}
+
+		script := append([]c07CAct{}, c.Script...)
+		for step := 0; !done(); step++ {
+			vfBeat(nil)
+			if step > 400 {
+				c07Hang(c, "the case did not finish within 400 driver actions")
+			}
+			var a c07CAct
+			if len(script) > 0 {
+				a, script = script[0], script[1:]
+				if !possible(a) {
+					continue
+				}
+			} else {
+				var acts []c07CAct
+				var weights []int
+				add := func(x c07CAct, w int) {
+					if possible(x) {
+						acts = append(acts, x)
+						weights = append(weights, w)
+					}
+				}
+				for i := 0; i < n; i++ {
+					add(c07CAct{A: "start", I: i}, 30)
+				}
+				add(c07CAct{A: "close"}, 12)
+				for i := -1; i < n; i++ {
+					add(c07CAct{A: "rel", I: i}, 25)
+				}
+				add(c07CAct{A: "tick"}, 12)
+				if len(acts) == 0 {
+					c.Macros = append(c.Macros, c07CMacro{Act: c07CAct{A: "stuck"}, Snap: snapshot()})
+					c07Hang(c, "deadlock: no driver action is possible, nothing is parked on the datastore gate, yet a call or Close has not returned")
+				}
+				tot := 0
+				for _, w := range weights {
+					tot += w
+				}
+				x := r.Intn(tot)
+				for k, w := range weights {
+					if x < w {
+						a = acts[k]
+						break
+					}
+					x -= w
+				}
+			}
+			perform(a)
+			waiters = c07Quiesce()
+			if waiters < 0 {
+				c07Hang(c, "the bubble never became quiet after "+a.A)
+			}
+			c.Macros = append(c.Macros, c07CMacro{Act: a, Snap: snapshot()})
+		}
+		g.mu.Lock()
+		c.Progs = append([][]string{}, g.progs...)
+		c.Sweeps = append([][]string{}, g.sweeps...)
+		if g.anomaly != "" {
+			failure = g.anomaly
+		}
+		if len(panics) > 0 {
+			failure = "panic: " + strings.Join(panics, "; ")
+		}
+		g.mu.Unlock()
+	})
+	return failure
+}
+
+func c07Dsop(s string) string {
+	switch s {
+	case "put":
+		return "KPut"
+	case "query":
+		return "KQuery"
+	case "delete":
+		return "KDelete"
+	}
+	return "KOther"
+}
+
+func c07Dsops(l []string) string {
+	it := make([]string, len(l))
+	for i, s := range l {
+		it[i] = c07Dsop(s)
+	}
+	return vfList(it)
+}
+
+func (s c07CSnap) coq() string {
+	cs := make([]string, len(s.C))
+	for i, x := range s.C {
+		switch {
+		case x == "-":
+			cs[i] = "SNot"
+		case x == "w":
+			cs[i] = "SPend"
+		case x == "ok":
+			cs[i] = "SFin FOk"
+		case x == "closed":
+			cs[i] = "SFin FClosed"
+		case strings.HasPrefix(x, "p:"):
+			cs[i] = "SPark " + c07Dsop(x[2:])
+		default:
+			cs[i] = "SOther"
+		}
+	}
+	gc := "None"
+	if s.GC != "" {
+		gc = "Some " + c07Dsop(s.GC)
+	}
+	x := map[string]string{"-": "XNot", "w": "XPend", "ret": "XRet"}[s.X]
+	return fmt.Sprintf("{| s_clients := %s; s_gc := %s; s_close := %s |}", vfList(cs), gc, x)
+}
+
+func (a c07CAct) coq() string {
+	switch a.A {
+	case "start":
+		return fmt.Sprintf("AStart %d%%nat", a.I)
+	case "close":
+		return "AClose"
+	case "tick":
+		return "ATick"
+	case "rel":
+		if a.I < 0 {
+			return "ARelease WGc"
+		}
+		return fmt.Sprintf("ARelease (WClient %d%%nat)", a.I)
+	}
+	panic("bad action " + a.A)
+}
+
+func c07ConcEmit(cs *vfCases, c *c07Conc, failure string) {
+	cs.Count("kind:conc", 1)
+	cs.Count("conc-scenario:"+c.Scenario, 1)
+	gets := make([]string, len(c.Clients))
+	progs := make([]string, len(c.Clients))
+	for i, cl := range c.Clients {
+		gets[i] = vfBool(cl.Op == "get")
+		var p []string
+		if i < len(c.Progs) {
+			p = c.Progs[i]
+		}
+		progs[i] = c07Dsops(p)
+	}
+	sweeps := make([]string, len(c.Sweeps))
+	for i, s := range c.Sweeps {
+		sweeps[i] = c07Dsops(s)
+	}
+	ticks := 0
+	macros := make([]string, len(c.Macros))
+	sig := map[string]bool{}
+	var prev c07CSnap
+	var atClose *c07CSnap
+	for i, m := range c.Macros {
+		macros[i] = fmt.Sprintf("{| m_act := %s; m_snap := %s |}", m.Act.coq(), m.Snap.coq())
+		cs.Count("conc-act:"+m.Act.A, 1)
+		switch m.Act.A {
+		case "tick":
+			ticks++
+			if prev.GC != "" {
+				sig["tick-while-sweeping"] = true
+				if prev.X == "w" {
+					sig["tick-buffered-cancelled"] = true
+				}
+			}
+		case "close":
+			p := prev
+			if i == 0 {
+				p = c07CSnap{C: make([]string, len(c.Clients))}
+			}
+			atClose = &p
+			for _, x := range p.C {
+				if strings.HasPrefix(x, "p:") {
+					sig["close@"+x[2:]] = true
+				}
+				if x == "w" {
+					sig["close@queued"] = true
+				}
+			}
+			if p.GC != "" {
+				sig["close@sweep-"+p.GC] = true
+			}
+		case "start":
+			if prev.X == "ret" {
+				sig["call-after-close"] = true
+			} else if prev.X == "w" {
+				sig["call-during-close"] = true
+			}
+		}
+		prev = m.Snap
+	}
+	if atClose != nil && len(c.Macros) > 0 {
+		fin := c.Macros[len(c.Macros)-1].Snap
+		for i, x := range atClose.C {
+			if x == "w" && i < len(fin.C) {
+				sig["waiter-"+fin.C[i]] = true // the mutex hand-off went to the waiter (ok) or to Close (closed)
+			}
+		}
+	}
+	for _, s := range c.Sweeps {
+		if len(s) > 1 {
+			sig["sweep-deletes"] = true
+		}
+	}
+	for _, p := range c.Progs {
+		if len(p) > 1 {
+			sig["load-deletes"] = true
+		}
+	}
+	var sigs []string
+	for s := range sig {
+		sigs = append(sigs, s)
+		cs.Count("branch:conc:"+s, 1)
+	}
+	sort.Strings(sigs)
+	term := fmt.Sprintf("CConc {| cc_gets := %s; cc_progs := %s; cc_sweeps := %s; cc_ticks := %d%%nat;\n   cc_macros := %s |}",
+		vfList(gets), vfList(progs), vfList(sweeps), ticks, vfList(macros))
+	idx := cs.Add(term, c, fmt.Sprintf("conc:%s|n=%d", strings.Join(sigs, ","), len(c.Clients)))
+	if failure != "" {
+		cs.Fail(idx, "failure in a concurrent Close-fence case", failure)
 	}
 }
